@@ -1,4 +1,5 @@
 import Wasp.Model.Broker
+import Wasp.Model.Wire
 import Driver.Util
 import Driver.Dist
 /-! Driver for domain `broker` (see harness/broker.go for the op syntax). Renders, after every
@@ -11,6 +12,7 @@ structure CState where
   midCan : List (Int × Nat) := []    -- raw id ↦ canonical index
   nextCan : Nat := 0
   outst : List (Nat × Nat) := []     -- (canonical index, qos) of deliveries this client has not acknowledged
+  toldClosed : Bool := false         -- CLOSED is reported once per connection
 
 structure St where
   w : World := World.init 1
@@ -29,7 +31,7 @@ def itemOf : Pkt → Option Item
   | .connack c => some { key := s!"connack({c})" }
   | .suback m qs => some { key := s!"suback({m};{",".intercalate (qs.map toString)})" }
   | .unsuback m => some { key := s!"unsuback({m})" }
-  | .publish t p q r d m => some { key := s!"publish(t={t},p={showPl p},q={q},r={b2i r},d={b2i d}", mid := m, kind := "publish" }
+  | .publish t p q r d m => some { key := s!"publish(t={Driver.safe t},p={showPl p},q={q},r={b2i r},d={b2i d}", mid := m, kind := "publish" }
   | .puback m => some { key := s!"puback({m})" }
   | .pubrec m => some { key := s!"pubrec({m})" }
   | .pubrel m => some { key := "pubrel(", mid := m, kind := "pubrel" }
@@ -57,7 +59,8 @@ def insertItem (cs : CState) (x : Item) : List Item → List Item
 
 def renderClient (name : String) (cs : CState) (pkts : List Pkt) : CState × String :=
   let items := (pkts.filterMap itemOf).foldl (fun acc x => insertItem cs x acc) []
-  let closed := pkts.any (· == .closed)
+  let closed := pkts.any (· == .closed) && !cs.toldClosed
+  let cs := if closed then { cs with toldClosed := true } else cs
   let (cs, out) := items.foldl (fun (acc : CState × List String) it =>
     let (cs, out) := acc
     if it.kind = "publish" then
@@ -68,7 +71,7 @@ def renderClient (name : String) (cs : CState) (pkts : List Pkt) : CState × Str
         | none =>
           let c := cs.nextCan + 1
           let q := if (it.key.splitOn ",q=2,").length > 1 then 2 else 1
-          ({ midCan := cs.midCan ++ [(it.mid, c)], nextCan := c, outst := cs.outst ++ [(c, q)] }, out ++ [s!"{it.key},m=#{c})"])
+          ({ cs with midCan := cs.midCan ++ [(it.mid, c)], nextCan := c, outst := cs.outst ++ [(c, q)] }, out ++ [s!"{it.key},m=#{c})"])
     else if it.kind = "pubrel" then
       match canOf cs it.mid with
       | some c => (cs, out ++ [s!"pubrel(#{c})"])
@@ -109,13 +112,16 @@ def showState (n : Node) : String :=
   Driver.Dist.showList ((sessAll n.dist).map (Driver.Dist.showS · false)) ++ " " ++
   Driver.Dist.showList ((subAll n.dist).map (Driver.Dist.showU · false)) ++ " " ++
   Driver.Dist.showList ((topicGet n.dist "#").map (Driver.Dist.showR · false)) ++ " " ++
-  Driver.Dist.showList (n.reg.map (·.id))
+  Driver.Dist.showList (n.reg.map (fun s => Driver.safe s.id))
 
 def clientRaw (st : St) (c : String) (can : String) : Option Int :=
   let k := (can.drop 1).toNat!
   ((st.clients.find? (fun e => e.1 == c)).bind (fun e => (e.2.midCan.find? (fun m => m.2 == k)))).map (·.1)
 
 def known (st : St) (c : String) : Bool := st.clients.any (fun e => e.1 == c)
+
+/-- can the client still write to its connection? (closed by the broker, or nobody reads it) -/
+def writable (st : St) (c : String) : Bool := st.w.conns.any (fun e => e.1 == c) && !st.w.deaf.contains c
 
 def step (st : St) (line : String) : St × String :=
   match Driver.words line with
@@ -132,18 +138,22 @@ def step (st : St) (line : String) : St × String :=
     observe { st with w := st.w.connect c node.toNat! client mp authOk ka.toNat! (parseWillSpec will) } "ok"
   | ["sub", c, mid, spec] =>
     if !known st c then (st, "noclient") else
+    if !writable st c then observe st "write-failed" else
     observe { st with w := st.w.clientPacket c (.subscribe (mid.toInt?.getD 0) (parseSubs spec)) } "ok"
   | ["unsub", c, mid, spec] =>
     if !known st c then (st, "noclient") else
+    if !writable st c then observe st "write-failed" else
     observe { st with w := st.w.clientPacket c (.unsubscribe (mid.toInt?.getD 0) ((spec.splitOn ",").map unTopic)) } "ok"
   | ["pub", c, t, p, q, r, d, mid] =>
     if !known st c then (st, "noclient") else
+    if !writable st c then observe st "write-failed" else
     observe { st with w := st.w.clientPacket c (.publish (unTopic t) (if p = "-" then "" else p) q.toNat! (r = "1") (d = "1") (mid.toInt?.getD 0)) } "ok"
   | ["ack", c, kind, can] =>
     if !known st c then (st, "noclient") else
     match clientRaw st c can with
     | none => (st, "nosuchdelivery")
     | some raw =>
+      if !writable st c then observe st "write-failed" else
       let k := (can.drop 1).toNat!
       let st := if kind = "puback" ∨ kind = "pubcomp" then
           { st with clients := st.clients.map (fun (e : String × CState) =>
@@ -166,13 +176,14 @@ def step (st : St) (line : String) : St × String :=
       | some raw =>
         if d.2 = 1 then w.clientPacket c (.puback raw)
         else (w.clientPacket c (.pubrec raw)).clientPacket c (.pubcomp raw)) st.w
-    let (st, out) := observe { st with w } "ok"
+    let (st, out) := observe { st with w } (if todo.isEmpty ∨ writable st c then "ok" else "write-failed")
     -- the identifiers become reusable once their exchanges are complete: forget their numbers
     ({ st with clients := st.clients.map (fun (e : String × CState) =>
         if e.1 == c then (c, { e.2 with midCan := e.2.midCan.filter (fun m => !done.contains m.2) }) else e) }, out)
   | ["rawack", c, kind, mid] =>
     if !known st c then (st, "noclient") else
     let raw := mid.toInt?.getD 0
+    if !writable st c then observe st "write-failed" else
     match kind with
     | "puback" => observe { st with w := st.w.clientPacket c (.puback raw) } "ok"
     | "pubrec" => observe { st with w := st.w.clientPacket c (.pubrec raw) } "ok"
@@ -182,8 +193,9 @@ def step (st : St) (line : String) : St × String :=
   | ["ping", c] =>
     if !known st c then (st, "noclient") else
     match st.w.conns.find? (fun e => e.1 == c) with
-    | none => observe st "ok"
+    | none => observe st "write-failed"
     | some (_, i) =>
+      if st.w.deaf.contains c then observe st "write-failed" else
       let n := st.w.node i
       let sid := "S" ++ c
       let mc : Option (String × String) :=
@@ -197,10 +209,21 @@ def step (st : St) (line : String) : St × String :=
       | none => observe { st with w := st.w.clientPacket c .pingreq } "ok"
   | ["disconnect", c] =>
     if !known st c then (st, "noclient") else
+    if !writable st c then observe st "write-failed" else
     observe { st with w := st.w.clientPacket c .disconnect } "ok"
   | ["drop", c] =>
     if !known st c then (st, "noclient") else
-    observe { st with w := st.w.drop c } "ok"
+    observe { st with w := Wasp.Wire.closeFromClient st.w c } "ok"
+  | ["open", c, node] =>
+    let st := ensureClient st c
+    observe { st with w := Wasp.Wire.openConn st.w c node.toNat! } "ok"
+  | ["raw", c, hex] =>
+    if !known st c then (st, "noclient") else
+    match Driver.fromHex hex with
+    | some bs =>
+      let r := Wasp.Wire.rawBytes st.w c (bs.map (·.toNat))
+      observe { st with w := r.1 } (if r.2 then "ok" else "write-failed")
+    | none => (st, "bad-op")
   | ["gossip"] => observe { st with w := st.w.gossipAll } "ok"
   | ["bc", f, t] => observe { st with w := st.w.deliverGossip f.toNat! t.toNat! } "ok"
   | ["losegossip", f, t] =>
@@ -223,7 +246,9 @@ def step (st : St) (line : String) : St × String :=
   | ["expire", n] => observe { st with w := st.w.sweep n.toNat! } "ok"
   | ["idle", ms] => observe { st with w := st.w.idle (ms.toInt?.getD 0) } "ok"
   | ["state", n] => (st, showState (st.w.node n.toNat!))
-  | ["log", n] => (st, "[" ++ " ".intercalate ((st.w.node n.toNat!).log.map (fun p => s!"{p.topic}={showPl p.payload}")) ++ "]")
+  | ["pool", n] =>
+    (st, "[" ++ " ".intercalate ((st.w.node n.toNat!).pool.ivs.map (fun iv => s!"[{iv.1} {iv.2}]")) ++ "]")
+  | ["log", n] => (st, "[" ++ " ".intercalate ((st.w.node n.toNat!).log.map (fun p => s!"{Driver.safe p.topic}={showPl p.payload}")) ++ "]")
   | ["bycid", n, m, c] =>
     match sessByClientID (st.w.node n.toNat!).dist m c with
     | md :: _ => (st, md.id)
